@@ -499,10 +499,14 @@ func (r *replayer) pkgDirOfHarness(h string) (string, string) {
 }
 
 // build compiles (once) the replay test binary of a package with the overlay.
-func (r *replayer) build(dir, pkgName string) (string, error) {
-	if b, ok := r.bins[dir]; ok {
+func (r *replayer) build(dir, pkgName string, race bool) (string, error) {
+	key := dir
+	if race {
+		key += "#race"
+	}
+	if b, ok := r.bins[key]; ok {
 		if b == "" {
-			return "", fmt.Errorf("%s", r.errs[dir])
+			return "", fmt.Errorf("%s", r.errs[key])
 		}
 		return b, nil
 	}
@@ -524,18 +528,23 @@ func (r *replayer) build(dir, pkgName string) (string, error) {
 	ovJSON := filepath.Join(ovDir, "overlay.json")
 	b, _ := json.Marshal(map[string]interface{}{"Replace": repl})
 	os.WriteFile(ovJSON, b, 0o644)
-	bin := filepath.Join(r.scratch, "replay_"+strings.ReplaceAll(dir, "/", "_")+".test")
+	bin := filepath.Join(r.scratch, "replay_"+strings.ReplaceAll(strings.ReplaceAll(key, "/", "_"), "#", "_")+".test")
 	target := "./" + dir
-	cmd := exec.Command("go", "test", "-c", "-vet=off", "-overlay", ovJSON, "-o", bin, target)
+	argv := []string{"test", "-c", "-vet=off", "-overlay", ovJSON, "-o", bin}
+	if race {
+		argv = append(argv, "-race")
+	}
+	argv = append(argv, target)
+	cmd := exec.Command("go", argv...)
 	cmd.Dir = repoRoot
 	cmd.Env = append(os.Environ(), "GOFLAGS=-mod=mod", "GOPROXY=off", "GOSUMDB=off", "GOTOOLCHAIN=local")
 	out, err := cmd.CombinedOutput()
 	if err != nil {
-		r.bins[dir] = ""
-		r.errs[dir] = "build failed: " + string(out)
-		return "", fmt.Errorf("%s", r.errs[dir])
+		r.bins[key] = ""
+		r.errs[key] = "build failed: " + string(out)
+		return "", fmt.Errorf("%s", r.errs[key])
 	}
-	r.bins[dir] = bin
+	r.bins[key] = bin
 	return bin, nil
 }
 
@@ -544,7 +553,7 @@ func (r *replayer) run(v violation, path string) (string, error) {
 	if dir == "" {
 		return "", fmt.Errorf("harness package not found")
 	}
-	bin, err := r.build(dir, pkgName)
+	bin, err := r.build(dir, pkgName, v.Kind == "race")
 	if err != nil {
 		return "", err
 	}
@@ -569,6 +578,10 @@ func classifyReplay(v violation, out string, err error) string {
 	switch v.Kind {
 	case "assert", "alloc", "frozen-write":
 		if outcome == "VXASSERT: "+v.Msg {
+			return "reproduced"
+		}
+	case "race":
+		if strings.Contains(out, "DATA RACE") {
 			return "reproduced"
 		}
 	case "crash":
